@@ -724,7 +724,7 @@ func (env *Env) call(n *ast.CallExpr) TV {
 		return TV{T: env.e.convert(v.T, v.Ty, t), Ty: t}
 	}
 	switch fname {
-	case "implies", "forall", "old", "atloop", "sameOwed", "sameOwn", "owedNonNeg", "nolocks", "samelocks", "sameWrExcept", "sameRdExcept", "sameelems", "strelems":
+	case "implies", "forall", "old", "atloop", "sameOwed", "sameOwn", "owedNonNeg", "nolocks", "samelocks", "sameWrExcept", "sameRdExcept", "sameelems", "strelems", "elemsbetween", "elemsnot":
 	default:
 		if _, isDef := env.e.p.cs.Defines[fname]; !isDef {
 			env = env.noSkolem()
@@ -953,6 +953,34 @@ func (env *Env) call(n *ast.CallExpr) TV {
 		body := func(j string) string {
 			return implies(and("(bvsle (s.off "+a+") "+j+")", "(bvslt "+j+" (bvadd (s.off "+a+") "+nn.T+"))"),
 				eq(sel(aArr, j), sel(bArr, "(bvadd (bvsub "+j+" (s.off "+a+")) (s.off "+b+"))")))
+		}
+		if env.skolem {
+			sk := c.Fresh("sk.j", bvSort(64))
+			return TV{T: body(sk), Ty: boolT}
+		}
+		return TV{T: fmt.Sprintf("(forall ((j (_ BitVec 64))) (! %s :pattern ((select %s j))))", body("j"), aArr), Ty: boolT}
+	case "elemsbetween", "elemsnot": // every element of the slice lies in [lo, hi) / differs from v
+		a, aArr := env.sliceAndArray(n.Args[0])
+		if aArr == "" {
+			return env.fail("%s: slice expected", fname)
+		}
+		sl := env.noSkolem().eval(stripOld(n.Args[0])).Ty.Underlying().(*types.Slice)
+		_, signed, _ := isInt(sl.Elem())
+		lt := "bvult"
+		if signed {
+			lt = "bvslt"
+		}
+		var cond func(el string) string
+		if fname == "elemsbetween" {
+			lo := env.coerce(env.noSkolem().eval(n.Args[1]), sl.Elem())
+			hi := env.coerce(env.noSkolem().eval(n.Args[2]), sl.Elem())
+			cond = func(el string) string { return and(not("("+lt+" "+el+" "+lo.T+")"), "("+lt+" "+el+" "+hi.T+")") }
+		} else {
+			v := env.coerce(env.noSkolem().eval(n.Args[1]), sl.Elem())
+			cond = func(el string) string { return not(eq(el, v.T)) }
+		}
+		body := func(j string) string {
+			return implies(and("(bvsle (s.off "+a+") "+j+")", "(bvslt "+j+" (bvadd (s.off "+a+") (s.len "+a+")))"), cond(sel(aArr, j)))
 		}
 		if env.skolem {
 			sk := c.Fresh("sk.j", bvSort(64))
@@ -1420,4 +1448,13 @@ func (env *Env) sliceAndArray(x ast.Expr) (string, string) {
 		return "", ""
 	}
 	return v.T, sel(env.e.c.Get(e2.st, env.e.elemComp(sl.Elem())), "(s.arr "+v.T+")")
+}
+
+func stripOld(x ast.Expr) ast.Expr {
+	if ce, ok := x.(*ast.CallExpr); ok {
+		if id, ok := ce.Fun.(*ast.Ident); ok && id.Name == "old" && len(ce.Args) == 1 {
+			return ce.Args[0]
+		}
+	}
+	return x
 }
